@@ -6,6 +6,7 @@ import (
 	"go/token"
 	"go/types"
 	"sort"
+	"strconv"
 	"strings"
 
 	ssa "xvc/xssa"
@@ -489,6 +490,10 @@ func (c *canon) val(v ssa.Value, d int) string {
 	case *ssa.Index:
 		return c.elem(x.X, x.Index, d)
 	case *ssa.Lookup:
+		// a local map that only ever stores `true` is a set: `m[k]` and `_, ok := m[k]` are one membership test
+		if !x.CommaOk && isLocalSet(x.X) {
+			return "has(" + c.val(x.X, d) + "," + c.val(x.Index, d-1) + ")"
+		}
 		return c.val(x.X, d) + "[" + c.val(x.Index, d-1) + "]"
 	case *ssa.Slice:
 		if al, ok := x.X.(*ssa.Alloc); ok && x.Low == nil && x.High == nil {
@@ -612,8 +617,16 @@ func (c *canon) val(v ssa.Value, d int) string {
 		}
 		return "phi{" + set + "}"
 	case *ssa.MakeMap:
-		return "newmap<" + namedOf(x.Type()) + ">"
+		n := namedOf(x.Type())
+		if strings.HasSuffix(n, "]struct{}") { // map[K]struct{} is the other spelling of a set
+			n = strings.TrimSuffix(n, "struct{}") + "bool"
+		}
+		return "newmap<" + n + ">"
 	case *ssa.MakeSlice:
+		// `d := make([]T, len(s)); copy(d, s)` is the copy `append([]T{}, s...)`
+		if src := soleCopySource(x); src != nil {
+			return "append([]," + c.val(src, d) + ")"
+		}
 		return "newslice<" + namedOf(x.Type()) + ">"
 	case *ssa.MakeChan:
 		return "newchan"
@@ -916,6 +929,43 @@ func (c *canon) call(call *ssa.Call, d int) string {
 	if name == "append" && len(args) == 2 && strings.HasPrefix(args[0], "local<[0]") && strings.HasSuffix(args[0], ">[:0]") {
 		return args[1]
 	}
+	if name == "append" && len(args) == 2 {
+		// appending to `make([]T, 0, n)` likewise
+		if ms, ok := cc.Args[0].(*ssa.MakeSlice); ok {
+			if n, isC := ConstInt(ms.Len); isC && n == 0 {
+				return args[1]
+			}
+		}
+		// two literals: the folded literal (what the compiler makes of `"M" + "key"`)
+		if isPlainQuoted(args[0]) && isPlainQuoted(args[1]) {
+			return args[0][:len(args[0])-1] + args[1][1:]
+		}
+	}
+	// Sprintf("%s<rest>", a, ...) is a ++ Sprintf("<rest>", ...): the append form of the same bytes
+	if name == "fmt.Sprintf" && len(cc.Args) == 2 {
+		if k, ok := cc.Args[0].(*ssa.Const); ok && k.Value != nil && k.Value.Kind() == constant.String {
+			format := constant.StringVal(k.Value)
+			if sl, ok := cc.Args[1].(*ssa.Slice); ok && strings.HasPrefix(format, "%s") {
+				if al, ok := sl.X.(*ssa.Alloc); ok {
+					if elems := arrayElems(al); len(elems) >= 1 && isBytesOrString(Strip(elems[0]).Type()) {
+						first, rest := c.val(elems[0], d-1), format[2:]
+						var more []string
+						for _, e := range elems[1:] {
+							more = append(more, c.val(e, d-1))
+						}
+						switch {
+						case rest == "" && len(more) == 0:
+							return first
+						case !strings.Contains(rest, "%") && len(more) == 0:
+							return "append(" + first + "," + strconv.Quote(rest) + ")"
+						default:
+							return "append(" + first + ",fmt.Sprintf(" + strconv.Quote(rest) + ",[" + strings.Join(more, ",") + "]))"
+						}
+					}
+				}
+			}
+		}
+	}
 	return name + "(" + strings.Join(args, ",") + ")" + c.feeds(call, d)
 }
 
@@ -1022,4 +1072,100 @@ func calleeShort(fn *ssa.Function) string {
 		pk = fn.Object().Pkg().Name()
 	}
 	return pk + "." + load.FuncName(fn)
+}
+
+// isLocalSet: v is a map made in this function with bool values whose every update stores the constant true.
+func isLocalSet(v ssa.Value) bool {
+	mm, ok := Resolve(v).(*ssa.MakeMap)
+	if !ok {
+		return false
+	}
+	mt, ok := mm.Type().Underlying().(*types.Map)
+	if !ok {
+		return false
+	}
+	if b, ok := mt.Elem().Underlying().(*types.Basic); !ok || b.Kind() != types.Bool {
+		return false
+	}
+	refs := mm.Referrers()
+	if refs == nil {
+		return false
+	}
+	n := 0
+	for _, r := range *refs {
+		switch u := r.(type) {
+		case *ssa.MapUpdate:
+			if u.Map != ssa.Value(mm) {
+				continue
+			}
+			if b, isC := ConstBool(u.Value); !isC || !b {
+				return false
+			}
+			n++
+		case *ssa.Lookup, *ssa.Range, *ssa.DebugRef, *ssa.Return:
+		case *ssa.Call:
+			if bi, ok := u.Call.Value.(*ssa.Builtin); !ok || (bi.Name() != "len" && bi.Name() != "delete") {
+				return false // handed to another function: it may store false
+			}
+		default:
+			return false
+		}
+	}
+	return n > 0
+}
+
+// soleCopySource: ms is `make([]T, len(src))` and the destination of exactly one whole-slice copy(ms, src).
+func soleCopySource(ms *ssa.MakeSlice) ssa.Value {
+	refs := ms.Referrers()
+	if refs == nil {
+		return nil
+	}
+	var src ssa.Value
+	for _, r := range *refs {
+		call, ok := r.(*ssa.Call)
+		if !ok {
+			continue
+		}
+		bi, ok := call.Call.Value.(*ssa.Builtin)
+		if !ok || bi.Name() != "copy" || len(call.Call.Args) != 2 {
+			continue
+		}
+		if call.Call.Args[0] != ssa.Value(ms) {
+			continue
+		}
+		if src != nil {
+			return nil
+		}
+		src = call.Call.Args[1]
+	}
+	if src == nil {
+		return nil
+	}
+	// the length is len(src)
+	lc, ok := ms.Len.(*ssa.Call)
+	if !ok {
+		return nil
+	}
+	if bi, ok := lc.Call.Value.(*ssa.Builtin); !ok || bi.Name() != "len" || len(lc.Call.Args) != 1 {
+		return nil
+	}
+	if lc.Call.Args[0] != src && Canon(lc.Call.Args[0]) != Canon(src) {
+		return nil
+	}
+	return src
+}
+
+func isPlainQuoted(s string) bool {
+	return len(s) >= 2 && s[0] == '"' && s[len(s)-1] == '"' && !strings.Contains(s[1:len(s)-1], "\\") && !strings.Contains(s[1:len(s)-1], "\"")
+}
+
+func isBytesOrString(t types.Type) bool {
+	switch u := t.Underlying().(type) {
+	case *types.Basic:
+		return u.Info()&types.IsString != 0
+	case *types.Slice:
+		b, ok := u.Elem().Underlying().(*types.Basic)
+		return ok && b.Kind() == types.Uint8
+	}
+	return false
 }
